@@ -597,3 +597,236 @@ Proof.
   cbv zeta. split; [vm_compute; reflexivity|]. split; [vm_compute; reflexivity|].
   vm_compute. discriminate.
 Qed.
+
+(** ** The concrete bookkeeping of [iterate] refines the abstract step *)
+Lemma insert_nat_In x y l : In y (insert_nat x l) <-> y = x \/ In y l.
+Proof.
+  induction l as [|z l IH].
+  - simpl. intuition congruence.
+  - simpl. destruct (Nat.ltb x z) eqn:E1.
+    + simpl. intuition congruence.
+    + destruct (Nat.eqb x z) eqn:E2.
+      * apply Nat.eqb_eq in E2. subst. simpl. intuition congruence.
+      * simpl. rewrite IH. intuition congruence.
+Qed.
+
+Lemma sort_dedup_In y l : In y (sort_dedup l) <-> In y l.
+Proof.
+  induction l as [|x l IH]; [reflexivity|].
+  unfold sort_dedup in *. simpl. rewrite insert_nat_In. rewrite IH. intuition congruence.
+Qed.
+
+Lemma getb_tab n f v : getb (tab n f) v = if Nat.ltb v n then f v else false.
+Proof.
+  unfold getb. destruct (Nat.ltb v n) eqn:E.
+  - apply Nat.ltb_lt in E. apply tab_nth. exact E.
+  - apply Nat.ltb_ge in E. apply tab_nth_over. exact E.
+Qed.
+
+Lemma getb_repeat b n v : getb (repeat b n) v = if Nat.ltb v n then b else false.
+Proof.
+  unfold getb. destruct (Nat.ltb v n) eqn:E.
+  - apply Nat.ltb_lt in E. apply nth_repeat_lt. exact E.
+  - apply Nat.ltb_ge in E. apply nth_overflow. rewrite repeat_length. exact E.
+Qed.
+
+Lemma succs_nonempty_lt (g : graph) u x : In x (succs g u) -> u < length g.
+Proof.
+  intros H. destruct (Nat.lt_ge_cases u (length g)) as [Hu|Hu]; [exact Hu|].
+  unfold succs in H. rewrite nth_overflow in H by exact Hu. destruct H.
+Qed.
+
+Section Concrete.
+  Variable L : Type.
+  Variable join : L -> L -> L.
+  Variable eqb : L -> L -> bool.
+  Variable dflt : L.
+  Variable size : L -> Z.
+  Hypothesis SL : semilattice join.
+  Hypothesis EQ : eqb_spec eqb.
+  Variable ext : bool.
+  Variables g gt : graph.
+
+  Notation sstep := (sync_step L join dflt).
+
+  Definition k_check (s : cstate L) := if c_prelocal L s then sort_dedup (c_buf L s) else c_check L s.
+  Definition k_mbc0 (s : cstate L) (sys : bool) :=
+    if negb (c_prelocal L s) && sys && negb (c_sys L s)
+    then repeat true (length (a_curr L (c_arr L s))) else c_mbc L s.
+  Definition k_scan (s : cstate L) := fun v => if c_prelocal L s then memb v (k_check s) else true.
+  Definition k_chk (s : cstate L) (sys : bool) := fun v => negb sys || c_prelocal L s || getb (k_mbc0 s sys) v.
+  Definition k_nmod0 (s : cstate L) :=
+    let n := length (a_curr L (c_arr L s)) in
+    if c_local L s then tab n (fun v => getb (c_nmod L s) v && negb (memb v (c_check L s))) else repeat false n.
+  Definition k_modified (s : cstate L) (sys : bool) :=
+    filter (fun v => node_mod L join eqb dflt g (c_arr L s) (k_scan s) (k_chk s sys) v)
+           (seq 0 (length (a_curr L (c_arr L s)))).
+
+  Definition cinv (s : cstate L) (c : list L) : Prop :=
+    ainv join dflt ext g (c_arr L s) c /\
+    (c_prelocal L s = true -> forall v, getb (a_mod L (c_arr L s)) v = true ->
+        In v (c_buf L s) /\ forall u, In u (succs gt v) -> In u (c_buf L s)) /\
+    (c_sys L s = true -> c_prelocal L s = false ->
+        forall v u, getb (a_mod L (c_arr L s)) v = true -> In u (succs gt v) -> getb (c_mbc L s) u = true) /\
+    (c_local L s = true -> forall v, getb (c_nmod L s) v = true -> In v (c_check L s)).
+
+  Lemma cstep_fields s sys pl :
+    let s' := cstep L join eqb dflt size ext g gt s sys pl in
+    let a' := astep L join eqb dflt ext g (c_arr L s) (k_scan s) (k_chk s sys) in
+    let n := length (a_curr L (c_arr L s)) in
+    c_arr L s' = mkA L (a_curr L a') (a_next L a')
+                     (tab n (fun v => getb (k_nmod0 s) v
+                                      || node_mod L join eqb dflt g (c_arr L s) (k_scan s) (k_chk s sys) v)) /\
+    c_nmod L s' = a_mod L (c_arr L s) /\
+    c_sys L s' = sys /\ c_local L s' = c_prelocal L s /\ c_prelocal L s' = pl /\
+    c_check L s' = k_check s /\
+    c_buf L s' = (if pl then flat_map (fun v => v :: succs gt v) (k_modified s sys) else []) /\
+    c_iter L s' = S (c_iter L s) /\
+    (sys = true -> pl = false ->
+       c_mbc L s' = tab n (fun u => getb (if negb (c_prelocal L s) && sys then repeat false n else c_nmbc L s) u
+                                    || existsb (fun v => memb u (succs gt v)) (k_modified s sys))).
+  Proof.
+    cbv zeta. repeat split.
+    intros -> ->. reflexivity.
+  Qed.
+
+  Lemma k_nmod0_false s c : cinv s c -> forall v, getb (k_nmod0 s) v = false.
+  Proof.
+    intros [_ [_ [_ Hc]]] v. unfold k_nmod0. destruct (c_local L s) eqn:El.
+    - rewrite getb_tab. destruct (Nat.ltb v _); [|reflexivity].
+      destruct (getb (c_nmod L s) v) eqn:E; [|reflexivity].
+      cbn. apply (Hc eq_refl) in E. apply memb_In in E. rewrite E. reflexivity.
+    - rewrite getb_repeat. destruct (Nat.ltb v _); reflexivity.
+  Qed.
+
+  Lemma k_skip_ok s c sys :
+    wf_graph g (length c) -> cinv s c ->
+    (sys = true \/ c_prelocal L s = true -> is_transpose g gt) ->
+    skip_ok ext g (a_mod L (c_arr L s)) (k_scan s) (k_chk s sys).
+  Proof.
+    intros [Hlen Hwf] [Hainv [Ha [Hb _]]] Htr.
+    unfold k_scan, k_chk. destruct (c_prelocal L s) eqn:Epl.
+    - (* local *)
+      assert (Hloc := local_legal ext g gt (a_mod L (c_arr L s)) (k_check s) (Htr (or_intror eq_refl))).
+      assert (Hin : forall v, getb (a_mod L (c_arr L s)) v = true ->
+                     In v (k_check s) /\ (forall u, In u (succs gt v) -> In u (k_check s))).
+      { intros v Hv. unfold k_check. rewrite Epl. destruct (Ha eq_refl v Hv) as [H1 H2].
+        split; [apply sort_dedup_In; exact H1 | intros u Hu; apply sort_dedup_In; apply H2; exact Hu]. }
+      specialize (Hloc Hin). destruct Hloc as [H1 H2]. split.
+      + intros v Hv. apply H1. rewrite orb_true_r in Hv. rewrite andb_true_r in *. exact Hv.
+      + exact H2.
+    - destruct sys eqn:Es.
+      + (* systolic, not local *)
+        cbn [negb orb]. unfold k_mbc0. rewrite Epl. cbn [negb andb].
+        destruct (c_sys L s) eqn:Eps; cbn [negb].
+        * apply (systolic_legal ext g gt _ _ (Htr (or_introl eq_refl))).
+          intros v u Hv Hu. apply (Hb eq_refl eq_refl v u Hv Hu).
+        * split; [|intros _ v Hv; discriminate].
+          intros v Hv. cbn [andb] in Hv. rewrite getb_repeat in Hv.
+          destruct (Nat.ltb v _) eqn:Ev; [discriminate|]. apply Nat.ltb_ge in Ev.
+          destruct Hainv as [Hc _]. rewrite Hc in Ev.
+          unfold anylive, succs. rewrite nth_overflow by lia. reflexivity.
+      + split; [intros v Hv; discriminate | intros _ v Hv; discriminate].
+  Qed.
+
+  Lemma cstep_inv s c sys pl :
+    wf_graph g (length c) -> cinv s c -> (pl = true -> sys = true) ->
+    (sys = true \/ c_prelocal L s = true -> is_transpose g gt) ->
+    cinv (cstep L join eqb dflt size ext g gt s sys pl) (sstep g c).
+  Proof.
+    intros Hwf Hinv Hpl Htr.
+    pose proof (k_skip_ok s c sys Hwf Hinv Htr) as Hsk.
+    pose proof (k_nmod0_false s c Hinv) as Hnm.
+    destruct (cstep_fields s sys pl) as [Farr [Fnmod [Fsys [Floc [Fpl [Fchk [Fbuf [_ Fmbc]]]]]]]].
+    destruct Hinv as [Hainv [Ha [Hb Hc]]].
+    destruct (skip_sound_lemma L join eqb dflt SL EQ ext g (c_arr L s) c (k_scan s) (k_chk s sys) Hwf Hainv Hsk)
+      as [Hainv' Hmod'].
+    assert (Hcn : length (a_curr L (c_arr L s)) = length c) by (destruct Hainv as [-> _]; reflexivity).
+    assert (Hmd : tab (length (a_curr L (c_arr L s)))
+                    (fun v => getb (k_nmod0 s) v || node_mod L join eqb dflt g (c_arr L s) (k_scan s) (k_chk s sys) v)
+                  = a_mod L (astep L join eqb dflt ext g (c_arr L s) (k_scan s) (k_chk s sys))).
+    { cbn [astep a_mod]. apply tab_ext. intros v _. rewrite Hnm. reflexivity. }
+    rewrite Hmd in Farr.
+    assert (Farr' : c_arr L (cstep L join eqb dflt size ext g gt s sys pl)
+                    = astep L join eqb dflt ext g (c_arr L s) (k_scan s) (k_chk s sys)).
+    { rewrite Farr. reflexivity. }
+    assert (Hmodin : forall v, getb (a_mod L (astep L join eqb dflt ext g (c_arr L s) (k_scan s) (k_chk s sys))) v = true ->
+                      In v (k_modified s sys)).
+    { intros v Hv. cbn [astep a_mod] in Hv. rewrite getb_tab in Hv.
+      destruct (Nat.ltb v _) eqn:Ev; [|discriminate]. apply Nat.ltb_lt in Ev.
+      unfold k_modified. apply filter_In. split; [apply in_seq; lia | exact Hv]. }
+    unfold cinv. rewrite Farr', Fnmod, Fsys, Floc, Fpl, Fchk, Fbuf.
+    split; [exact Hainv'|]. split; [|split].
+    - intros -> v Hv. apply Hmodin in Hv. split.
+      + apply in_flat_map. exists v. split; [exact Hv | left; reflexivity].
+      + intros u Hu. apply in_flat_map. exists v. split; [exact Hv | right; exact Hu].
+    - intros -> -> v u Hv Hu. rewrite (Fmbc eq_refl eq_refl). rewrite getb_tab.
+      assert (Hun : u < length (a_curr L (c_arr L s))).
+      { rewrite Hcn. destruct Hwf as [Hlen _]. rewrite <- Hlen.
+        destruct (Htr (or_introl eq_refl)) as [_ Ht]. apply (proj1 (Ht u v)) in Hu. apply (succs_nonempty_lt g u v Hu). }
+      apply Nat.ltb_lt in Hun. rewrite Hun. apply orb_true_iff. right.
+      apply existsb_exists. exists v. split; [apply Hmodin; exact Hv | apply memb_In; exact Hu].
+    - intros Hl v Hv. unfold k_check. rewrite Hl. apply sort_dedup_In. apply (proj1 (Ha Hl v Hv)).
+  Qed.
+
+  Variable has_tr : bool.
+  Hypothesis Htr : has_tr = true -> is_transpose g gt.
+  Variable c0 : list L.
+  Hypothesis Hwf : wf_graph g (length c0).
+
+  Definition rinv (s : cstate L) : Prop :=
+    cinv s (sync_iter L join dflt g (c_iter L s) c0) /\ (c_prelocal L s = true -> has_tr = true).
+
+  Lemma decide_props n m it cnt sys pl :
+    decide has_tr n m it cnt = (sys, pl) -> (pl = true -> sys = true) /\ (sys = true -> has_tr = true).
+  Proof.
+    unfold decide. intros H. injection H as Hs Hp. subst sys pl. split.
+    - intros H. apply andb_prop in H. apply H.
+    - intros H. destruct has_tr; [reflexivity | discriminate H].
+  Qed.
+
+  Lemma rinv_step s sys pl :
+    rinv s -> decide has_tr (length (a_curr L (c_arr L s))) (num_arcs g) (c_iter L s) (c_count L s) = (sys, pl) ->
+    rinv (cstep L join eqb dflt size ext g gt s sys pl).
+  Proof.
+    intros [Hc Hp] Hd. destruct (decide_props _ _ _ _ _ _ Hd) as [Hpl Hsys].
+    destruct (cstep_fields s sys pl) as [_ [_ [_ [_ [Fpl [_ [_ [Fit _]]]]]]]].
+    unfold rinv. rewrite Fit, Fpl. cbn [sync_iter]. split.
+    - apply cstep_inv.
+      + rewrite (siter_length L join dflt). exact Hwf.
+      + exact Hc.
+      + exact Hpl.
+      + intros [H|H]; apply Htr; [apply Hsys; exact H | apply Hp; exact H].
+    - intros H. apply Hsys. apply Hpl. exact H.
+  Qed.
+
+  Lemma crun_inv fuel : forall s, rinv s ->
+    forall s', In s' (crun L join eqb dflt size ext has_tr g gt fuel s) -> rinv s'.
+  Proof.
+    induction fuel as [|f IH]; intros s Hs s' Hin; [destruct Hin|].
+    cbn [crun] in Hin.
+    destruct (decide has_tr (length (a_curr L (c_arr L s))) (num_arcs g) (c_iter L s) (c_count L s)) as [sys pl] eqn:Hd.
+    pose proof (rinv_step s sys pl Hs Hd) as Hs1.
+    destruct Hin as [<-|Hin]; [exact Hs1|].
+    destruct (Nat.eqb _ 0); [destruct Hin|]. apply (IH _ Hs1 s' Hin).
+  Qed.
+
+  Lemma init_rinv : rinv (init_state L dflt c0).
+  Proof.
+    split; [|intros H; discriminate]. cbn [init_state c_iter sync_iter]. split; [|split; [|split]].
+    - apply (init_ainv L join dflt ext g c0 Hwf).
+    - intros H; discriminate.
+    - intros H; discriminate.
+    - intros H; discriminate.
+  Qed.
+End Concrete.
+
+Theorem concrete_full : S_concrete_full.
+Proof.
+  intros L join eqb dflt size ext has_tr g gt ub c0 SL EQ Hwf Htr. cbv zeta. intros s Hin.
+  unfold hb_run in Hin.
+  pose proof (crun_inv L join eqb dflt size SL EQ ext g gt has_tr Htr c0 Hwf _ _
+                (init_rinv L join dflt ext g gt has_tr c0 Hwf) s Hin) as [[[Hc _] _] _].
+  exact Hc.
+Qed.
+
